@@ -1289,3 +1289,49 @@ def c20_m(ctx):
 def rf_fraction(v):
     from fractions import Fraction
     return Fraction(v)
+
+
+@obligation('C20-n', 'T1 T11 T14', 'the first batch of a round is not submitted while batches of '
+            'the previous round are outstanding; "first batch of a round" is a property of the '
+            'batch index', floor=2,
+            necessary='a batch prepared before the previous round was processed is simulated at '
+                      'the previous (possibly rejected) parameters: the likelihood of the next '
+                      'round mixes two parameter values')
+def c20_n(ctx):
+    from .. import symdiff as sd
+    from ..ratfun import Rat, Unsupported
+    mb = ctx.cls('elfi.methods.inference.parameter_inference:ModelBased')
+    al = ctx.own_method(mb, '_allow_submit')
+    ex = ctx.ex(al)
+    bi = ('param', al.params[1])
+    rf = [r for r in returns(al) if ex.term(r.value) == ('const', False)]
+    ok = False
+    site = None
+    for r in rf:
+        facts = [t for (t, pol, _) in ctx.guards(al, r) if pol and t[0] != 'bool']
+        pend = any(match(t, pattern('self.batches.has_pending')) is not None for t in facts)
+        first = False
+        for t in facts:
+            m = match(t, pattern('_a % self.n_sim_round == 0'))
+            if m is None:
+                continue
+            # _a must be the index of the first simulation of the batch: batch_index * batch_size
+            a = m['a']
+            mm = match(a, pattern('_x * _y'))
+            if mm is not None and {mm['x'], mm['y']} == {bi, pattern_term('self.batch_size')}:
+                first = True
+        if pend and first:
+            ok = True
+            site = r
+    ctx.check(ok, al, 'round barrier decided from the index of the batch to be submitted',
+              '(batch_index * batch_size) % n_sim_round == 0 and has_pending -> False',
+              'submission of a round\'s first batch is not refused while batches are pending on '
+              'the ground of the *index of the batch to be submitted* (a test on the simulations '
+              'received so far opens the barrier as soon as one batch of the round has arrived)',
+              fn=al, node=site or al.node)
+    # otherwise the general rule decides
+    rs = [r for r in returns(al) if contains(ex.term(r.value), 'super()._allow_submit(_)') or
+          (ex.term(r.value)[0] == 'call' and callee_name(r.value) == '_allow_submit')]
+    ctx.check(bool(rs), al, 'otherwise the general submission rule applies',
+              'return super()._allow_submit(batch_index)', '', fn=al,
+              node=rs[0] if rs else al.node)
